@@ -19,11 +19,6 @@ def intArith : Arith Int where
   isNeg v := decide (v < 0)
   abs v := (v.natAbs : Int)
 
-/-- the reader on a token string (the lexer is tied to the code by the run, see harness) -/
-def decodeToks {V : Type} (A : Arith V) (table : List BuiltinDef) (ts : List Tok) :
-    Option (Decoded V) :=
-  (parseProgram ts).bind fun ss => (elabStmts A { table := table } ss).bind finish
-
 /-- a three-row gate table for the witnesses -/
 def tinyTable : List BuiltinDef :=
   [⟨"rz", 1, 1, "RZGate", 1, 1⟩, ⟨"h", 0, 1, "HGate", 0, 1⟩, ⟨"cx", 0, 2, "CNOTGate", 0, 2⟩]
